@@ -40,6 +40,21 @@ func unhex(s string) []byte {
 	return b
 }
 
+// spareCap returns b as a sub-slice of a larger guarded array (len(b) bytes followed by 48 guard bytes it
+// may grow into: cap > len), together with the whole array, so that writes past len - e.g. through append -
+// are caught as mutation of caller-owned memory.  A nil slice stays nil.
+func spareCap(b []byte) (sub, whole []byte) {
+	if b == nil {
+		return nil, nil
+	}
+	whole = make([]byte, len(b)+48)
+	copy(whole, b)
+	for i := len(b); i < len(whole); i++ {
+		whole[i] = 0xA5 ^ byte(i)
+	}
+	return whole[:len(b)], whole
+}
+
 func hx(b []byte) string {
 	if len(b) == 0 {
 		return "-"
@@ -214,15 +229,12 @@ var swapMu sync.Mutex
 func runOp(f []string) string {
 	switch f[0] {
 	case "E":
-		ent := unhex(f[2])
-		var snap []byte
-		if ent != nil {
-			snap = append([]byte{}, ent...)
-		}
+		ent, whole := spareCap(unhex(f[2]))
+		snap := append([]byte{}, whole...)
 		return guard(func() string {
 			s, err := bip39.NewMnemonicByEntropy(ent, lang(f[1]))
 			r := strErr(s, err)
-			if !bytes.Equal(snap, ent) {
+			if !bytes.Equal(snap, whole) {
 				r += " MUTATED-ENTROPY"
 			}
 			return r
@@ -349,13 +361,14 @@ func runHistory(line string) string {
 		f := strings.Fields(o)
 		// keep caller-owned entropy slices and returned seeds alive and re-inspect them later
 		if f[0] == "E" {
-			ent := unhex(f[2])
+			ent, whole := spareCap(unhex(f[2]))
 			if ent != nil {
-				h := held{buf: ent, snap: append([]byte{}, ent...)}
+				h := held{buf: whole, snap: append([]byte{}, whole...)}
+				helds = append(helds, held{buf: ent, snap: append([]byte{}, ent...)})
 				helds = append(helds, h)
 				lang := lang(f[1])
 				r := guard(func() string {
-					s, err := bip39.NewMnemonicByEntropy(h.buf, lang)
+					s, err := bip39.NewMnemonicByEntropy(ent, lang)
 					if err == nil {
 						strs = append(strs, s)
 						strsSnap = append(strsSnap, string(append([]byte{}, s...)))
